@@ -98,77 +98,83 @@ def run(sc):
              [np.array([0.0, 0.01, -0.04, 0.08]), np.array([0.0, 0.02, 0.03, -0.05])])
     else:
         q = [np.array([0.0, 0.005, 0.02, 0.08, 0.2])] if sc.get("zero") else [np.array([0.005, 0.02, 0.08, 0.2])]
-    ev = {"tid": sc["tid"], "ev": "Mix", "expr": expr, "dim": dim, "raised": "", "out": [], "names": []}
     spin = {"up_frac_i": rng.choice([0.0, 0.25]), "up_frac_f": rng.choice([0.0, 0.75]),
             "up_theta": rng.choice([90.0, 30.0]), "up_phi": rng.choice([0.0, 40.0])}
-    try:
-        info = core.load_model_info(expr)
-        model = core.build_model(info, dtype="double", platform="dll")
-        kernel = model.make_kernel(q)
-        ev["names"] = [p.name for p in info.parameters.call_parameters]
-        pars = {"scale": rng.choice([1.0, 0.5, 2.0]), "background": rng.choice([0.0, 0.125])}
-        has_mag = any(p.name == "up_frac_i" for p in info.parameters.call_parameters)
-        if has_mag and use_mag:
-            pars.update(spin)
+    kernel = None
+    # the same kernel object is called twice, with other values and other dispersity meshes the second time
+    for rep in (0, 1):
+        ev = {"tid": sc["tid"] + 500000 * rep, "ev": "Mix", "expr": expr, "dim": dim, "raised": "", "out": [], "names": [],
+              "again": bool(rep)}
+        try:
+            if kernel is None:
+                info = core.load_model_info(expr)
+                model = core.build_model(info, dtype="double", platform="dll")
+                kernel = model.make_kernel(q)
+            ev["names"] = [p.name for p in info.parameters.call_parameters]
+            pars = {"scale": rng.choice([1.0, 0.5, 2.0]), "background": rng.choice([0.0, 0.125])}
+            has_mag = any(p.name == "up_frac_i" for p in info.parameters.call_parameters)
+            if has_mag and use_mag:
+                pars.update(spin)
 
-        def walk(node_info, names):
-            comp = node_info.composition
-            if comp and comp[0] == "mixture":
-                op = node_info.operation
-                kids, scales = [], []
-                idx = 0
-                for part in comp[1]:
-                    if op == "+":
-                        sname = names[idx]
-                        idx += 1
-                        # (a negative scale is how a difference of two models is written; zero switches a part off)
-                        s = rng.choice([1.0, 0.5, 3.0, -0.75, 0.0, 2.0])
-                        pars[sname] = s
-                        scales.append(fstr(s))
-                    n = len(expand(part))
-                    kids.append(walk(part, names[idx:idx + n]))
-                    idx += n
-                return {"op": op, "scales": scales, "kids": kids, "I": []}
-            # leaf (plain model or P@S): evaluate alone with its own parameter names
-            own = expand(node_info)
-            assert len(own) == len(names), (own, names)
-            lp = leaf_values(node_info, rng, dim, sc.get("zero"), use_mag)
-            ren = dict(zip(own, names))
-            leaf_call = dict(lp, scale=1.0, background=0.0)
-            if use_mag and any(p.name == "up_frac_i" for p in node_info.parameters.call_parameters):
-                leaf_call.update(spin)
-            for k, v in lp.items():
-                base, suffix = k, ""
-                for sfx in ("_pd_type", "_pd_nsigma", "_pd_n", "_pd", "_M0", "_mtheta", "_mphi"):
-                    if k.endswith(sfx) and k[:-len(sfx)] in ren:
-                        base, suffix = k[:-len(sfx)], sfx
-                        break
-                if base in ren:
-                    pars[ren[base] + suffix] = v
-                elif k.startswith("up_"):
-                    pass
-                else:
-                    raise KeyError("cannot map %s of %s" % (k, node_info.id))
-            lm = core.build_model(node_info, dtype="double", platform="dll")
-            lk = lm.make_kernel(q)
-            I = call_kernel(lk, leaf_call)
-            lk.release()
-            return {"op": "leaf", "scales": [], "kids": [], "I": fvec(I), "model": node_info.id}
+            def walk(node_info, names):
+                comp = node_info.composition
+                if comp and comp[0] == "mixture":
+                    op = node_info.operation
+                    kids, scales = [], []
+                    idx = 0
+                    for part in comp[1]:
+                        if op == "+":
+                            sname = names[idx]
+                            idx += 1
+                            # (a negative scale is how a difference of two models is written; zero switches a part off)
+                            s = rng.choice([1.0, 0.5, 3.0, -0.75, 0.0, 2.0])
+                            pars[sname] = s
+                            scales.append(fstr(s))
+                        n = len(expand(part))
+                        kids.append(walk(part, names[idx:idx + n]))
+                        idx += n
+                    return {"op": op, "scales": scales, "kids": kids, "I": []}
+                # leaf (plain model or P@S): evaluate alone with its own parameter names
+                own = expand(node_info)
+                assert len(own) == len(names), (own, names)
+                lp = leaf_values(node_info, rng, dim, sc.get("zero"), use_mag)
+                ren = dict(zip(own, names))
+                leaf_call = dict(lp, scale=1.0, background=0.0)
+                if use_mag and any(p.name == "up_frac_i" for p in node_info.parameters.call_parameters):
+                    leaf_call.update(spin)
+                for k, v in lp.items():
+                    base, suffix = k, ""
+                    for sfx in ("_pd_type", "_pd_nsigma", "_pd_n", "_pd", "_M0", "_mtheta", "_mphi"):
+                        if k.endswith(sfx) and k[:-len(sfx)] in ren:
+                            base, suffix = k[:-len(sfx)], sfx
+                            break
+                    if base in ren:
+                        pars[ren[base] + suffix] = v
+                    elif k.startswith("up_"):
+                        pass
+                    else:
+                        raise KeyError("cannot map %s of %s" % (k, node_info.id))
+                lm = core.build_model(node_info, dtype="double", platform="dll")
+                lk = lm.make_kernel(q)
+                I = call_kernel(lk, leaf_call)
+                lk.release()
+                return {"op": "leaf", "scales": [], "kids": [], "I": fvec(I), "model": node_info.id}
 
-        tree = walk(info, expand(info))
-        ev["tree"] = tree
-        ev["scale"], ev["background"] = fstr(pars["scale"]), fstr(pars["background"])
-        ev["pars"] = {k: (v if isinstance(v, str) else float(v)) for k, v in pars.items()}
-        out = call_kernel(kernel, dict(pars))
-        ev["out"] = fvec(out)
+            tree = walk(info, expand(info))
+            ev["tree"] = tree
+            ev["scale"], ev["background"] = fstr(pars["scale"]), fstr(pars["background"])
+            ev["pars"] = {k: (v if isinstance(v, str) else float(v)) for k, v in pars.items()}
+            out = call_kernel(kernel, dict(pars))
+            ev["out"] = fvec(out)
+        except Exception as exc:
+            ev["raised"] = (type(exc).__name__ + ": " + str(exc))[:300].replace('"', "'")
+            ev["tb"] = traceback.format_exc()[-1200:]
+            ev.setdefault("tree", {"op": "leaf", "scales": [], "kids": [], "I": []})
+            ev.setdefault("scale", "1.0")
+            ev.setdefault("background", "0.0")
+        emit(ev)
+    if kernel is not None:
         kernel.release()
-    except Exception as exc:
-        ev["raised"] = (type(exc).__name__ + ": " + str(exc))[:300].replace('"', "'")
-        ev["tb"] = traceback.format_exc()[-1200:]
-        ev.setdefault("tree", {"op": "leaf", "scales": [], "kids": [], "I": []})
-        ev.setdefault("scale", "1.0")
-        ev.setdefault("background", "0.0")
-    emit(ev)
 
 
 def main():
